@@ -3,6 +3,12 @@
 // and the simulated transport (simnet.go).
 package simrt
 
+import (
+	"fmt"
+	"path/filepath"
+	"runtime"
+)
+
 // Tape is the single source of every decision of a run. In generation mode
 // Draw takes the next PRNG word (after an optional forced prefix) and records
 // it; in replay mode it returns the recorded words and 0 past the end.
@@ -14,6 +20,8 @@ type Tape struct {
 	replay []uint32
 	pos    int
 	isRep  bool
+	// DebugLog, if set, receives one line per draw (diagnostics only).
+	DebugLog func(string)
 }
 
 // NewTape returns a generating tape: first the forced words, then PRNG(seed).
@@ -65,7 +73,13 @@ func (t *Tape) Draw(n int) int {
 	if n <= 1 {
 		return 0
 	}
-	return int(t.word() % uint32(n))
+	v := int(t.word() % uint32(n))
+	if t.DebugLog != nil {
+		_, f1, l1, _ := runtime.Caller(1)
+		_, f2, l2, _ := runtime.Caller(2)
+		t.DebugLog(fmt.Sprintf("   draw(%d)=%d #%d at %s:%d <- %s:%d", n, v, len(t.rec), filepath.Base(f1), l1, filepath.Base(f2), l2))
+	}
+	return v
 }
 
 // Pct returns true with probability p percent (false is the simple choice).
